@@ -297,3 +297,46 @@ def run(ctx):
         else:
             ctx.ok("R6", f"{h.name}({', '.join(sorted(roots))}) builds on copies: no mutation of its arguments", h.where)
     ctx.floor("R6", len(helpers), 5, "correction helpers")
+
+    # ------------------------------------------------------------------ R7
+    ctx.rule("R7", "a basis correction reaches every shell", "some shells (e.g. uncontracted ones) keep the vendor's normalisation while the others are corrected: the orbitals no longer pass the norm check, or pass it with a wrong basis")
+    from ..cfg import cfg_of as _cfg_of
+
+    nfix = 0
+    for h in {g.qualname: g for g in helpers}.values():
+        loops = [n for n in h.own_nodes() if isinstance(n, ast.For) and isinstance(n.iter, ast.Attribute) and n.iter.attr == "shells"]
+        if not loops:
+            continue
+        cfg = _cfg_of(h)
+        for lp in loops:
+            mods = []
+            for top in lp.body:
+                for x in ast.walk(top):
+                    if isinstance(x, ast.AugAssign) and any(isinstance(y, ast.Attribute) and y.attr == "coeffs" for y in ast.walk(x.target)):
+                        mods.append(top)
+                        break
+            if not mods:
+                continue
+            nfix += 1
+            head = cfg.idx(lp)
+            first = cfg.idx(lp.body[0])
+            through = {cfg.idx(m) for m in mods}
+            # paths from the start of the loop body back to the loop head (or out of the loop) that avoid the correction
+            reach = cfg.reachable(first, avoid=through) if first not in through else set()
+            skipping = [n for n in ast.walk(lp) if isinstance(n, (ast.Continue, ast.Break)) and cfg.idx(n) in reach and _innermost_loop(prog, h, n) is lp]
+            if head in reach or skipping:
+                node = skipping[0] if skipping else lp
+                ctx.violate("R7", f"{h.name}: a path through the per-shell loop bypasses the statement that corrects the coefficients (line {mods[0].lineno}); those shells are returned uncorrected next to corrected ones", h, node)
+            else:
+                ctx.ok("R7", f"{h.name}: every shell of the loop reaches the coefficient correction (line {mods[0].lineno})", f"{h.module.relpath}:{lp.lineno}")
+    ctx.floor("R7", nfix, 4, "per-shell correction loops")
+
+
+def _innermost_loop(prog, func, node):
+    pm = prog.parents(func)
+    cur = node
+    while id(cur) in pm:
+        cur = pm[id(cur)]
+        if isinstance(cur, (ast.For, ast.While)):
+            return cur
+    return None
